@@ -152,13 +152,24 @@ func (a *AuthenticateASCII) getPassword(response tq.Response, request tq.Request
 			a.Context(),
 			tq.NewAuthenReply(
 				tq.SetAuthenReplyStatus(tq.AuthenStatusFail),
-				tq.SetAuthenReplyServerMsg(fmt.Sprintf("authentication denied [%s]", a.username)),
+				tq.SetAuthenReplyServerMsg(deniedMsg(a.username)),
 			),
 			a.recorderWriter,
 		)
 		return
 	}
 	NewResponseLogger(a.Context(), a.loggerProvider, c.Authenticate).Handle(response, request)
+}
+
+// deniedMsg names the user that was refused. A name collected with a CONTINUE may be up to
+// 65535 octets long; echoing such a name would not fit the reply's own 16 bit message
+// length (or the packet) and the client would get no reply at all, so only names a START
+// packet could carry are repeated.
+func deniedMsg(username string) string {
+	if len(username) > 255 {
+		return "authentication denied"
+	}
+	return fmt.Sprintf("authentication denied [%s]", username)
 }
 
 // AuthenticateContinueStop looks for flags in the client request to see if we should terminate.
